@@ -3,4 +3,4 @@ CONSTANT NodeClauses = FALSE
 CONSTRAINT Progress
 POSTCONDITION Accepted
 CHECK_DEADLOCK FALSE
-INVARIANTS NodeListIsolated ServiceListIsolated ExistsIsolated OpenIsolated CleanupIsolated CreateIsolated NodeListComplete ServiceListComplete ExistsComplete CleanupComplete CreatedUnderDomain
+INVARIANTS NodeListIsolated ServiceListIsolated ExistsIsolated OpenIsolated CleanupIsolated CreateIsolated NodeListComplete ServiceListComplete ExistsComplete CleanupComplete CreatedUnderDomain RemovedUnderDomain ConceptListIsolated ConceptExistsIsolated ConceptExistsComplete ConceptRemoveIsolated
